@@ -64,9 +64,8 @@ WalkWithin(N, E, a, b, k) ==
 SameRes(x, y) == x.chain = y.chain /\ x.resid = y.resid /\ x.resname = y.resname
 
 \* atoms: sequence of particle records; a residue is represented by the lowest index of its particles
-Rep(atoms, i) == CHOOSE j \in DOMAIN atoms :
-                    /\ SameRes(atoms[j], atoms[i])
-                    /\ \A l \in DOMAIN atoms : SameRes(atoms[l], atoms[i]) => j <= l
+Rep(atoms, i) == LET S == {j \in DOMAIN atoms : SameRes(atoms[j], atoms[i])}
+                 IN CHOOSE j \in S : \A l \in S : j <= l
 RepTable(atoms) == [i \in DOMAIN atoms |-> Rep(atoms, i)]
 
 \* quotient of the particle graph: edges between different residues (symmetric); edges by index
